@@ -105,6 +105,7 @@ def eval_outcome(ctx, text, flavour):
     import collections
     base = {'a': 1, 'b': [1, 2, 3], 'x': 'abc', 'f': max, 'g': min, 'k2': {'k': 1}, 'y': 2, 'c': 0, '_t': None}
     names = [dict, Missing0, lambda d: collections.defaultdict(list, d), collections.Counter][flavour]({k: v for k, v in base.items() if k not in ('b', 'k2', 'x', '_t', 'f', 'g')} if flavour == 3 else base)
+    random.seed(11)                 # a base taken from a coverage-guided corpus may call rand / shuffle: both layouts draw the same numbers
     try:
         v = ctx.P.eval(text, names, None, 80)
         out = ('value', ADDR.sub('0x', repr(v))[:300])
@@ -125,6 +126,7 @@ def run_cgf(case, ctx):
     r = random.Random(seed)
     seeds = ['x = [1, 2]\nx | map(v => v * 2)', 'f(1, {"a": b.c(d),}) if not x else y[1:2]', 'd["k"] += 1; del l[0]', '%a b% = r"\\d+" # c\n(p, q) => p ** -q', 'a and b not in c or not d == e',
              'x.f(1, 2,) | g | h(3)', 'v => w => v if w else 0', '-a[1] ** -b.c()', '{1: [2, {"k": (3)}], "s": \'q\'}', 'f(a,\n b)\r\n[1,\n2]; x']
+    seeds += ['x = rand()\n[x, rand(1, 9)]', 'shuffle([1, 2, 3, 4])']
     out = cgdriver.run(ctx, 'c06', seed, seconds, seeds)
     if out is None:
         return
